@@ -209,8 +209,9 @@ def k3(ses, rep, N):
             oid = f"format_token/{kind}/path{pi}"
             if not isinstance(out_text, BStr):
                 # an extracted helper? inline it and analyse this token kind again
-                if isinstance(out_text, Lazy) and out_text.oid in ex.havoc_calls and tries.get(kind, 0) < 3:
-                    g = ex.resolve(ex.havoc_raw.get(out_text.oid, ex.havoc_calls[out_text.oid][0]))
+                opaque = out_text if isinstance(out_text, Lazy) and out_text.oid in ex.havoc_calls else tv if out_text is None else None
+                if isinstance(opaque, Lazy) and opaque.oid in ex.havoc_calls and tries.get(kind, 0) < 3:
+                    g = ex.resolve(ex.havoc_raw.get(opaque.oid, ex.havoc_calls[opaque.oid][0]))
                     if g is not None and g.blocks and g.name not in extra_inline:
                         extra_inline.add(g.name)
                         tries[kind] = tries.get(kind, 0) + 1
